@@ -474,7 +474,14 @@ def parse_file(path, cs, repo='/repo', default_pkg=None):
             tname, fld, ftyp = mm.groups()
             if '.' not in tname and '/' not in tname:
                 tname = pkg + '.' + tname
-            cs.ghosts.setdefault(tname, {})[fld] = ftyp.strip()
+            ftyp = ftyp.strip()
+            if ftyp.endswith(' zero'):
+                # the field of a freshly allocated (zero) object is 0
+                ftyp = ftyp[:-5].strip()
+                if not hasattr(cs, 'ghost_zero'):
+                    cs.ghost_zero = set()
+                cs.ghost_zero.add((tname, fld))
+            cs.ghosts.setdefault(tname, {})[fld] = ftyp
         elif kw == 'lemma':
             mm = re.match(r'^([A-Za-z_][A-Za-z0-9_]*)\s*\((.*?)\)\s*:\s*(.*)$', rest)
             if not mm:
